@@ -112,6 +112,13 @@ def check(ctx):
         rv = through(rets[0].value) if len(rets) == 1 and rets[0].value is not None else None
         ok = isinstance(rv, ast.Call) and u(rv.func) == 'map' and len(rv.args) == 2 and \
             u(rv.args[0]) == 'self.get_output_row' and bool(wrs) and through(rv.args[1]) is wrs[0]
+        if not ok and isinstance(rv, ast.Call) and isinstance(rv.func, ast.Attribute) and pseudo(rv.func.value) == 'self' and len(rv.args) == 1:
+            # the same mapping written as a generator method: for w in written: yield self.get_output_row(w)
+            gm = sd.methods.get(rv.func.attr)
+            if gm is not None and gm.is_generator and len(gm.params) == 2:
+                body_ = [x for x in gm.node.body if not (isinstance(x, ast.Expr) and isinstance(x.value, ast.Constant))]
+                ok = len(body_) == 1 and match_stmt('for _w in %s:\n    yield self.get_output_row(_w)' % gm.params[1], body_[0]) is not None \
+                    and bool(wrs) and through(rv.args[0]) is wrs[0]
         if ok:
             rows_arg = through(wrs[0].args[1]) if len(wrs[0].args) > 1 else None
             ok = isinstance(rows_arg, ast.Call) and u(rows_arg.func) == 'self.normalize_for_engine' and \
